@@ -1,22 +1,78 @@
 (* C16 - exactly one server under every interleaving; close and disconnect end it.
    Statements only; proofs are in Proofs/ClientProofs.v. Model: Model/Client.v
    (supp/remote.py prepare / run / _threaded_run / _run / _call / close at source-line
-   granularity; any number of client threads, any scripts over {Prepare, Call, Close}, any
-   schedule = list of thread ids of any length, launch and connect outcomes by oracle). *)
+   granularity; ANY number of client threads, ANY scripts over {Prepare, Call, Close}, ANY
+   schedule = list of thread ids of any length; launch and connect outcomes by oracle).
+   cfg selects the pinned-tree lines (fix_f2 = fix_f3 = false) or the repaired ones. *)
 From Coq Require Import List Bool Arith.
 Import ListNotations.
 From Supp Require Import Model.Client Proofs.ClientProofs.
 
-(* One server per session, under every interleaving, for both the pinned and the repaired
-   run(): the number of server processes launched equals  sessions closed (completed
-   del self.conn) + launches abandoned with the timeout exception + 1 if a server is connected
-   + 1 if one is between Popen and Client - and the last two never add up to more than 1. *)
+(* One server per session under every interleaving (pinned and repaired run() alike): the number
+   of server processes launched equals  sessions closed (completed `del self.conn`)
+   + launches abandoned with the timeout exception + 1 if a server is connected + 1 if one is
+   between Popen and Client - and the last two never add up to more than 1.  With no close and
+   no failed launch this is `launches <= 1`. *)
 Theorem C16_one_server_per_session : forall c o scripts sched,
   let s := run c o sched (init scripts) in
   launches (sh s) = epoch (sh s) + failed (sh s) + b2n (is_some (conn (sh s))) + inflight (sh s) /\
   b2n (is_some (conn (sh s))) + inflight (sh s) <= 1.
 Proof. intros. apply launches_exact, reachable_inv. Qed.
 Print Assumptions C16_one_server_per_session.
+
+(* ... and exactly 1 as soon as the connection exists (a call can only be answered over it). *)
+Theorem C16_exactly_one_once_connected : forall c o scripts sched,
+  let s := run c o sched (init scripts) in
+  conn (sh s) <> None -> launches (sh s) = epoch (sh s) + failed (sh s) + 1.
+Proof. intros. apply exactly_one_once_connected; [apply reachable_inv|assumption]. Qed.
+Print Assumptions C16_exactly_one_once_connected.
+
+(* No start-up exception, repaired run(), launches and connects that do not time out, ANY scripts
+   (close() included) and ANY schedule: no thread is ever unwinding prepare()/run() with an
+   exception (AttributeError from the handle race, launch timeout, start of a started thread),
+   and no starter thread dies with one. *)
+Theorem C16_no_startup_exception : forall c o scripts sched,
+  fix_f3 c = true -> good_oracle o ->
+  let s := run c o sched (init scripts) in
+  (forall i, on bad_pc (clients s i) = false) /\ (forall h, st_clean (starters s h)).
+Proof. intros c o scripts sched H3 Hg. exact (no_startup_exception c o H3 Hg scripts sched). Qed.
+Print Assumptions C16_no_startup_exception.
+
+(* F3 on the pinned tree: run() tests self.prepare_thread and reads it again to join it; the
+   starter clears it in between (2 threads, 25 scheduled lines) -> the caller unwinds run() with
+   AttributeError although the launch succeeded. *)
+Definition f3_scripts : list (list op) := [[Prepare]; [Call]].
+Definition f3_schedule : list tid :=
+  repeat (Cl 0) 6 ++ repeat (Cl 1) 7 ++ repeat (St 0) 5 ++ [Cl 1].
+
+Theorem C16_F3_refuted : exists scripts sched,
+  let s := run cfg_asis oracle_ok sched (init scripts) in
+  ~ (forall i, on bad_pc (clients s i) = false) /\
+  t_pc (clients s 1) = RRelExc AttrErr /\ launches (sh s) = 1.
+Proof.
+  exists f3_scripts, f3_schedule. vm_compute. split; [|split; reflexivity].
+  intros H. specialize (H 1). discriminate H.
+Qed.
+Print Assumptions C16_F3_refuted.
+
+(* the same schedule, run to the end: the caller records AttributeError and gets no reply on the
+   pinned tree; on the repaired one it is answered by the one server *)
+Example C16_F3_outcome :
+  let fin := f3_schedule ++ repeat (Cl 1) 12 in
+  let a := run cfg_asis oracle_ok fin (init f3_scripts) in
+  let f := run cfg_fixed oracle_ok fin (init f3_scripts) in
+  (t_exns (clients a 1), t_answers (clients a 1)) = ([AttrErr], 0) /\
+  (t_exns (clients f 1), t_answers (clients f 1), launches (sh f)) = ([], 1, 1).
+Proof. vm_compute. split; reflexivity. Qed.
+
+(* F2 on the pinned tree: close() raises TypeError and the session stays up. *)
+Theorem C16_F2_refuted : exists scripts sched,
+  let s := run cfg_asis oracle_ok sched (init scripts) in
+  t_exns (clients s 0) = [TypeErr] /\ conn (sh s) <> None /\ epoch (sh s) = 0.
+Proof.
+  exists [[Call; Close]], (repeat (Cl 0) 20). vm_compute. split; [reflexivity|split; [discriminate|reflexivity]].
+Qed.
+Print Assumptions C16_F2_refuted.
 
 (* Deadlock freedom: in every reachable state either every client script has run to its end
    and every starter thread has finished, or some thread can execute its next line. *)
@@ -25,3 +81,62 @@ Theorem C16_deadlock_free : forall c o scripts sched,
   all_done s \/ exists t, step c o s t <> None.
 Proof. intros. apply deadlock_free, reachable_inv. Qed.
 Print Assumptions C16_deadlock_free.
+
+(* The starter thread never takes (or releases) the lock. *)
+Theorem C16_starter_never_locks : forall c o s h s',
+  step c o s (St h) = Some s' -> lock (sh s') = lock (sh s).
+Proof. exact starter_never_locks. Qed.
+Print Assumptions C16_starter_never_locks.
+
+(* Step bound: every line a client executes ends its operation or strictly decreases a measure
+   that is at most 24, so an operation is at most 25 of its own lines; a starter at most 5
+   (when no connect attempt is retried; every retry costs one more line). *)
+Theorem C16_step_bound : forall c o s,
+  no_retry o ->
+  (forall i s', step c o s (Cl i) = Some s' ->
+     length (t_script (clients s' i)) < length (t_script (clients s i)) \/
+     (t_script (clients s' i) = t_script (clients s i) /\
+      mu (t_pc (clients s' i)) < mu (t_pc (clients s i)) <= 24)) /\
+  (forall h s', step c o s (St h) = Some s' -> smu (starters s' h) < smu (starters s h) <= 6).
+Proof. exact step_bound. Qed.
+Print Assumptions C16_step_bound.
+
+(* close() then a call launches exactly one new server: from ANY state in which the session is
+   up, nobody is inside prepare()/run() and no starter is registered, a thread that runs
+   close() and then a call (22 lines, alone) ends the session (epoch + 1), launches exactly one
+   server, leaves a fresh connection and gets its reply. *)
+Theorem C16_close_then_call : forall c o s i rest k,
+  fix_f2 c = true -> fix_f3 c = true ->
+  t_script (clients s i) = Close :: Call :: rest -> t_pc (clients s i) = KTry ->
+  lock (sh s) = None -> handle (sh s) = None ->
+  conn (sh s) = Some k -> c_closed k = false ->
+  o_popen o (popens (sh s)) = true -> o_conn o (attempts (sh s)) = COk ->
+  let s' := run c o (repeat (Cl i) 22) s in
+  launches (sh s') = S (launches (sh s)) /\ epoch (sh s') = S (epoch (sh s)) /\
+  conn (sh s') = Some fresh_conn /\ lock (sh s') = None /\ handle (sh s') = None /\
+  t_script (clients s' i) = rest /\ t_exns (clients s' i) = t_exns (clients s i) /\
+  t_answers (clients s' i) = S (t_answers (clients s i)).
+Proof. exact close_then_call. Qed.
+Print Assumptions C16_close_then_call.
+
+(* Non-vacuity: the hypotheses of C16_close_then_call hold in a reachable state (three threads,
+   a background prepare, two concurrent first calls, interleaved; then thread 0 is about to close). *)
+Example C16_close_then_call_applies :
+  let sched := [Cl 1; Cl 1; Cl 1; Cl 1; Cl 1; Cl 1; Cl 0; Cl 2; St 0; Cl 0; Cl 2; St 0; Cl 0; Cl 2; St 0;
+                Cl 0; Cl 2; St 0; Cl 0; Cl 2; St 0; Cl 0; Cl 2; Cl 0; Cl 0; Cl 0; Cl 0; Cl 2; Cl 0; Cl 2;
+                Cl 0; Cl 2; Cl 0; Cl 2; Cl 0; Cl 2; Cl 2; Cl 2; Cl 2; Cl 2] in
+  let s := run cfg_fixed oracle_ok sched (init [[Call; Close; Call]; [Prepare]; [Call]]) in
+  t_script (clients s 0) = [Close; Call] /\ t_pc (clients s 0) = KTry /\
+  lock (sh s) = None /\ handle (sh s) = None /\ conn (sh s) = Some fresh_conn /\
+  launches (sh s) = 1 /\ t_answers (clients s 0) = 1 /\ t_answers (clients s 2) = 1 /\
+  t_exns (clients s 0) = [] /\ t_exns (clients s 2) = [].
+Proof. vm_compute. repeat split; reflexivity. Qed.
+
+(* Non-vacuity of the safety theorems: a launch that fails and is retried, a close and a relaunch
+   in one run - 3 launches = 1 closed session + 1 abandoned launch + 1 connected server. *)
+Example C16_accounting_example :
+  let o := mk_oracle [] [CTimeout] in
+  let s := run cfg_fixed o (repeat (Cl 0) 80) (init [[Call; Call; Close; Call]]) in
+  (launches (sh s), epoch (sh s), failed (sh s), is_some (conn (sh s)), t_exns (clients s 0),
+   t_answers (clients s 0)) = (3, 1, 1, true, [TimeoutErr], 2).
+Proof. vm_compute. reflexivity. Qed.
